@@ -94,7 +94,11 @@ Inductive entry :=
 | EPoolWrite (site : string) (attr : string)     (* an attribute assigned inside Model.configure_pool / close_pool:
                                                     anything but the pool state itself is a side channel through which
                                                     the parallelisation settings can reach the run *)
-| ESeedCall (site : string).                     (* a call of self.configure_random_seed(...)            *)
+| ESeedCall (site : string)                      (* a call of self.configure_random_seed(...)            *)
+| EEnvGuardedDraw (site : string) (what : string).
+     (* a randomness consumer inside (or after an early exit of) a branch whose test reads the file system
+        (os.path.exists / isfile / isdir / listdir / glob / stat ...): whether the draw happens - hence the position
+        of the stream - would depend on something that is neither the seed nor the configuration *)
 
 Definition src_ok (s : rsrc) : bool :=
   match s with
@@ -115,6 +119,7 @@ Definition entry_ok (allowed : list string) (e : entry) : bool :=
   | EPoolRead site _ => mem site allowed
   | EPoolWrite _ a => mem a pool_state
   | ESeedCall _ => true
+  | EEnvGuardedDraw _ _ => false
   end.
 
 Definition is_seed_np (seed_site : string) (e : entry) : bool :=
